@@ -475,7 +475,7 @@ pub fn run(args: &[String]) {
         rep.violation(p);
     }
     if a < 257 || b < 100 || bans == 0 || accepted == 0 || fl < 2 {
-        mc::machinery("C11 vacuous");
+        rep.vacuous("C11 vacuous");
     }
     rep.finish();
 }
